@@ -23,7 +23,7 @@ use crate::config::{
 };
 use crate::incoming::IncomingSession;
 use crate::store::SessionRecordRef;
-use crate::store::errors::{ChangeIdError, DeleteError, LoadError};
+use crate::store::errors::{ChangeIdError, DeleteError, LoadError, UpdateError};
 use crate::wire::WireClientState;
 
 /// The current HTTP session.
@@ -579,7 +579,24 @@ impl Session<'_> {
                 };
                 match self.id {
                     CurrentSessionId::Existing(id) => {
-                        self.store.update(&id, record).await?;
+                        match self.store.update(&id, record).await {
+                            Ok(_) => {}
+                            Err(UpdateError::UnknownIdError(_)) => {
+                                // There is no record for this session in the store: e.g. its
+                                // creation was skipped since it was empty, or it has expired while
+                                // we were processing.
+                                // We know what the state needs to be though, so we
+                                // can handle this case gracefully.
+                                let record = SessionRecordRef {
+                                    state: Cow::Borrowed(state),
+                                    ttl: fresh_ttl,
+                                };
+                                self.store.create(&id, record).await?;
+                            }
+                            Err(e) => {
+                                return Err(e.into());
+                            }
+                        }
                     }
                     CurrentSessionId::ToBeRenamed { old, new } => {
                         if let Err(e) = self.store.delete(&old).await {
